@@ -343,17 +343,27 @@ def run_reset_case(case):
                 return
             step = max(1, case.get("chunk", b))
             pos = 0
+            mid = case.get("midcmd")
             try:
                 while pos < len(data):
                     dw.write(data[pos : pos + step])
                     pos += step
                     if case.get("drain", True):
                         await dw.drain()
+                    if mid and pos >= len(data) // 2:
+                        # a command on the control channel in the middle of the upload (the server
+                        # serves other commands while a transfer runs); the upload then goes on
+                        await asyncio.sleep(0.01)
+                        info["midcmd_reply"] = (await peer.cmd(mid))[0]
+                        mid = None
             except ConnectionError:
                 pass
             if case.get("pause"):
                 await asyncio.sleep(case["pause"])
-            dw.transport.abort()  # RST: what is still unsent / in flight may be lost
+            if case.get("midcmd"):
+                dw.close()  # orderly end of data: the whole upload must be stored
+            else:
+                dw.transport.abort()  # RST: what is still unsent / in flight may be lost
             replies = []
             try:
                 while True:
@@ -369,7 +379,8 @@ def run_reset_case(case):
                     got, want = snap.get("/d/old"), scenario.payload("/d/old", 3 * b + 1) + data
                 info["completed"] = True
                 if got != want:
-                    viol.append({"clause": "completion-reply-for-truncated-upload", "subject": verb, "detail": f"data connection reset by the peer, server replied {replies} but stored {None if got is None else len(got)} of {len(want)} bytes"})
+                    how = f"'{case['midcmd']}' (answered {info.get('midcmd_reply')}) was sent on the control channel in mid-upload, data then closed normally" if case.get("midcmd") else "data connection reset by the peer"
+                    viol.append({"clause": "completion-reply-for-truncated-upload", "subject": verb + (":midcmd" if case.get("midcmd") else ""), "detail": f"{how}; server replied {replies} but stored {None if got is None else len(got)} of {len(want)} bytes"})
             peer.close()
             await asyncio.sleep(1)
             await asyncio.wait_for(server.close(), 1e4)
@@ -385,7 +396,7 @@ def run_reset_case(case):
             "events": world.net.seq,
             "steps": world.loop.steps,
             "outcome": world.outcome,
-            "counters": {"faults.data_reset_mid_upload": 1, "probe.completion_after_reset": int(bool(info.get("completed")))},
+            "counters": {"faults.data_reset_mid_upload": int(not case.get("midcmd")), "probe.command_in_mid_upload": int(bool(info.get("midcmd_reply"))), "probe.completion_after_reset": int(bool(info.get("completed")))},
             "violations": _dedupe(viol),
         }
         if case.get("want_sample"):
@@ -415,7 +426,7 @@ def _dedupe(viol):
 def gen_reset_case(seed):
     rnd = random.Random(seed * 4243 + 1)
     b = rnd.choice([7, 16, 64, 100])
-    return {"mode": "reset", "seed": seed, "B": b, "len": rnd.choice([b, 3 * b + 1, 10 * b, 40 * b]), "chunk": rnd.choice([1, b, 3 * b, 1 << 20]), "drain": rnd.random() < 0.6, "pause": rnd.choice([0, 0, 0.0005, 0.01]), "verb": rnd.choice(["STOR", "APPE"]), "slow_server": rnd.random() < 0.5, "fs_delay": rnd.choice([None, [0.0005, 0.004]]), "passive": rnd.choice(["EPSV", "PASV"])}
+    return {"mode": "reset", "seed": seed, "B": b, "len": rnd.choice([b, 3 * b + 1, 10 * b, 40 * b]), "chunk": rnd.choice([1, b, 3 * b, 1 << 20]), "drain": rnd.random() < 0.6, "pause": rnd.choice([0, 0, 0.0005, 0.01]), "verb": rnd.choice(["STOR", "APPE"]), "slow_server": rnd.random() < 0.5, "fs_delay": rnd.choice([None, [0.0005, 0.004]]), "passive": rnd.choice(["EPSV", "PASV"]), "midcmd": rnd.choice([None, None, "EPSV", "PASV", "NOOP", "PWD", "TYPE I", "MLST /d"])}
 
 
 def confirm(case, violation):
